@@ -12,13 +12,13 @@ pub fn classes(second: bool) -> Vec<(&'static str, &'static str)> {
         vec![
             ("null", "`null`"), ("boolean", "`true`"), ("number", "`1`"), ("string", "'a'"), ("empty-array", "`[]`"),
             ("array-of-numbers", "`[1,2]`"), ("array-of-strings", "`[\"a\",\"b\"]`"), ("mixed-array", "`[1,\"a\"]`"),
-            ("object", "`{\"a\":1}`"), ("expref", "&a"),
+            ("object", "`{\"a\":1}`"), ("expref", "&a"), ("number-array-with-null", "`[1,null]`"), ("string-array-with-null", "`[\"a\",null]`"),
         ]
     } else {
         vec![
             ("null", "`null`"), ("boolean", "`false`"), ("number", "`-1.5`"), ("string", "''"), ("empty-array", "`[]`"),
             ("array-of-numbers", "`[0]`"), ("array-of-strings", "`[\"\"]`"), ("mixed-array", "`[null,[1]]`"),
-            ("object", "`{}`"), ("expref", "&@"),
+            ("object", "`{}`"), ("expref", "&@"), ("number-array-with-null", "`[null,0]`"), ("string-array-with-null", "`[null,\"\"]`"),
         ]
     }
 }
@@ -81,6 +81,34 @@ pub fn check_call_expr_p(prop: &str, src: &str, d: &Value, sub: &str, st: &mut S
     }
 }
 
+/// `wrapped` evaluates `call` against a null current node; its outcome must
+/// be the outcome of `call` on the document null (general R-eval oracle)
+pub fn check_wrapped(wrapped: &str, _call: &str, d: &Value, st: &mut Stats) {
+    st.evaluations += 1;
+    st.transitions += 1;
+    let p = match rparse::parse(wrapped) {
+        Ok(p) => p,
+        Err(_) => {
+            st.count("MODEL_ERROR_generated_call_does_not_parse", 1);
+            return;
+        }
+    };
+    let e = match guarded(|| jmespath::compile(wrapped)) {
+        Ok(Ok(e)) => e,
+        _ => return,
+    };
+    st.validated += 1;
+    if let Some((exp, act, _)) = crate::oracle::compare(&p, &e, d, &value_to_var(d)) {
+        st.violate(Violation {
+            key: "C06/call-behind-null-left-hand-side".into(),
+            check: "decision-table".into(),
+            case: json!({"kind": "search", "expression": wrapped, "document": d}),
+            expected: exp,
+            actual: act,
+        });
+    }
+}
+
 fn tuples(n: usize, k: usize) -> Vec<Vec<usize>> {
     let mut out = vec![vec![]];
     for _ in 0..k {
@@ -125,6 +153,14 @@ pub fn run(tier: Tier) -> i32 {
             let args: Vec<&str> = t.iter().map(|&i| cl[i].1).collect();
             let src = format!("{}({})", name, args.join(", "));
             check_call_expr(&src, &d, "decision-table", st);
+            if *argc <= 2 {
+                // the same cell reached through a null left-hand side: errors and values must not be lost
+                let p1 = format!("nokey | {}", src);
+                let p2 = format!("`null` | {}", src);
+                for w in [p1, p2] {
+                    crate::checks::c06::check_wrapped(&w, &src, &d, st);
+                }
+            }
             if tier == Tier::Thorough && *argc <= 2 {
                 // the same cell nested: behind a pipe and as the operand of a projection element
                 check_call_expr(&format!("{}({})", name, args.join(",")), &json!({"a": [1, 2], "xs": []}), "decision-table", st);
